@@ -18,9 +18,9 @@ fn main() {
     std::thread::spawn(move || {
         let mut last = String::new();
         loop {
-            std::thread::sleep(Duration::from_secs(6));
+            std::thread::sleep(Duration::from_secs(10));
             let cur = pr.lock().unwrap().clone();
-            if cur == last && !cur.is_empty() { println!("FAIL: still not back after 6 s: {}", cur); std::process::exit(1); }
+            if cur == last && !cur.is_empty() { println!("FAIL: still not back after 10 s: {}", cur); std::process::exit(1); }
             last = cur;
         }
     });
@@ -49,7 +49,7 @@ fn main() {
                     checked += 1;
                     let mut why = vec![];
                     if !failed { why.push("no error returned".to_string()); }
-                    if t.elapsed() > Duration::from_secs(3) { why.push(format!("took {:?}", t.elapsed())); }
+                    if t.elapsed() > Duration::from_secs(5) { why.push(format!("took {:?}", t.elapsed())); }
                     // detached stages (communicate) may still be exiting: give them a moment, then nothing may be left
                     let mut left = 0;
                     for _ in 0..40 {
